@@ -227,6 +227,13 @@ PROPS = {
             {"stream": "c12", "race": True, "n_quick": 8, "n_thorough": 80, "timeout_quick": 900, "timeout_thorough": 6000},
             {"stream": "c13", "race": True, "n_quick": 5, "n_thorough": 50, "timeout_quick": 900, "timeout_thorough": 6000},
             {"stream": "c11", "race": True, "n_quick": 6, "n_thorough": 60, "timeout_quick": 900, "timeout_thorough": 6000},
+            # the same scenarios without the tracer (its mutex would order the instrumentation points and hide races
+            # between them): only a race report or a crash counts
+            {"stream": "c05", "race": True, "notrace": True, "n_quick": 8, "n_thorough": 100, "timeout_quick": 900, "timeout_thorough": 6000},
+            {"stream": "c06", "race": True, "notrace": True, "n_quick": 8, "n_thorough": 80, "timeout_quick": 900, "timeout_thorough": 6000},
+            {"stream": "c08", "race": True, "notrace": True, "n_quick": 10, "n_thorough": 100, "timeout_quick": 900, "timeout_thorough": 6000},
+            {"stream": "c10", "race": True, "notrace": True, "n_quick": 6, "n_thorough": 60, "timeout_quick": 900, "timeout_thorough": 6000},
+            {"stream": "c13", "race": True, "notrace": True, "n_quick": 6, "n_thorough": 60, "timeout_quick": 900, "timeout_thorough": 6000},
         ],
         "trusted": RUNTIME_TRUST + ["Go's race detector (happens-before analysis of each observed execution)",
                                     "the classical DRF result relating the lockset/confinement discipline to happens-before races is cited, not re-proved"],
